@@ -226,7 +226,8 @@ func (fr *Frame) instr(in ssa.Instruction, h Heap) Heap {
 		return fr.runDefers(x, h)
 	case *ssa.Panic:
 		if fr.fc == nil || !fr.fc.MayPanic {
-			fr.oblig("panic", "safety", "", "false", "explicit panic reachable: "+x.String(), x.Pos())
+			// explicit panic(...) statements form an obligation of their own (not silenced by no_safety)
+			fr.oblig("panic", "nopanic", "nopanic", "false", "explicit panic reachable: "+x.String(), x.Pos())
 		}
 		return h
 	case *ssa.Return:
@@ -255,9 +256,29 @@ func (fr *Frame) instr(in ssa.Instruction, h Heap) Heap {
 			}
 			idx := sv.Tup[0].T
 			fr.assume(and(g.ile(g.ilit(lo), idx), g.ilt(idx, g.ilit(int64(len(x.States))))), "select chooses one of its cases")
+			// ghost: the value taken by the chosen receive case is recorded as received from its channel
+			j := 0
+			for k, st := range x.States {
+				if st.Dir == types.SendOnly {
+					el := st.Chan.Type().Underlying().(*types.Chan).Elem()
+					h = fr.recordSend(h, fr.val(st.Chan).T, fr.coerceVal(st.Send, el), el, fmt.Sprintf("(= %s %s)", idx, g.ilit(int64(k))))
+					continue
+				}
+				if st.Dir != types.RecvOnly {
+					continue
+				}
+				if 2+j < len(sv.Tup) {
+					el := st.Chan.Type().Underlying().(*types.Chan).Elem()
+					h = fr.recordReceive(h, fr.val(st.Chan).T, sv.Tup[2+j].T, el, fmt.Sprintf("(= %s %s)", idx, g.ilit(int64(k))))
+				}
+				j++
+			}
 		}
 		return h
 	case *ssa.Send:
+		if ct, ok := x.Chan.Type().Underlying().(*types.Chan); ok {
+			h = fr.recordSend(h, fr.val(x.Chan).T, fr.coerceVal(x.X, ct.Elem()), ct.Elem(), "true")
+		}
 		return h
 	case *ssa.SliceToArrayPointer:
 		panic(genErr("SliceToArrayPointer unsupported"))
@@ -298,6 +319,14 @@ func (fr *Frame) unop(x *ssa.UnOp, h Heap) Heap {
 		fr.vals[x] = &Val{T: fr.bitnot(x, fr.val(x.X).T)}
 	case token.ARROW:
 		fr.vals[x] = fr.symbolic("recv_"+x.Name(), x.Type())
+		if ct, ok := x.X.Type().Underlying().(*types.Chan); ok {
+			rv := fr.vals[x]
+			if x.CommaOk && len(rv.Tup) == 2 {
+				h = fr.recordReceive(h, fr.val(x.X).T, rv.Tup[0].T, ct.Elem(), rv.Tup[1].T)
+			} else if rv.T != "" {
+				h = fr.recordReceive(h, fr.val(x.X).T, rv.T, ct.Elem(), "true")
+			}
+		}
 	default:
 		panic(genErr("unop " + x.Op.String()))
 	}
@@ -478,4 +507,70 @@ func (fr *Frame) runDefers(x *ssa.RunDefers, h Heap) Heap {
 		h = fr.call(nil, d.Common(), h)
 	}
 	return h
+}
+
+// rcvName: ghost record of the values received from each channel, per element sort.
+func (g *Gen) rcvName(el types.Type) (string, string) {
+	es := g.sortOf(el)
+	name := "RCV$" + sanitize(es)
+	srt := "(Array Int (Array " + es + " Bool))"
+	g.heapSort[name] = srt
+	return name, srt
+}
+
+func (fr *Frame) recordReceive(h Heap, ch, v string, el types.Type, cond string) Heap {
+	g := fr.g
+	if v == "" {
+		return h
+	}
+	name, srt := g.rcvName(el)
+	cur := g.heapArr(h, name, srt)
+	nh := h.clone()
+	upd := fmt.Sprintf("(store %s %s (store (select %s %s) %s true))", cur, ch, cur, ch, v)
+	if cond != "true" {
+		upd = ite(cond, upd, cur)
+	}
+	nh[name] = g.define(name, srt, upd)
+	return nh
+}
+
+func (fr *Frame) coerceVal(v ssa.Value, to types.Type) string {
+	return fr.val(v).T
+}
+
+// sndName: ghost record of the values sent on each channel (per element sort) and the number of sends.
+func (g *Gen) sndName(el types.Type) (string, string) {
+	es := g.sortOf(el)
+	name := "SND$" + sanitize(es)
+	srt := "(Array Int (Array " + es + " Bool))"
+	g.heapSort[name] = srt
+	return name, srt
+}
+
+func (g *Gen) sndCountName() (string, string) {
+	srt := "(Array Int " + g.sortOf(types.Typ[types.Int]) + ")"
+	g.heapSort["SNDN$"] = srt
+	return "SNDN$", srt
+}
+
+func (fr *Frame) recordSend(h Heap, ch, v string, el types.Type, cond string) Heap {
+	g := fr.g
+	if v == "" {
+		return h
+	}
+	name, srt := g.sndName(el)
+	cur := g.heapArr(h, name, srt)
+	nh := h.clone()
+	upd := fmt.Sprintf("(store %s %s (store (select %s %s) %s true))", cur, ch, cur, ch, v)
+	cn, cs := g.sndCountName()
+	ccur := g.heapArr(h, cn, cs)
+	one := g.ilit(1)
+	cupd := fmt.Sprintf("(store %s %s %s)", ccur, ch, g.iadd(fmt.Sprintf("(select %s %s)", ccur, ch), one))
+	if cond != "true" {
+		upd = ite(cond, upd, cur)
+		cupd = ite(cond, cupd, ccur)
+	}
+	nh[name] = g.define(name, srt, upd)
+	nh[cn] = g.define(cn, cs, cupd)
+	return nh
 }
